@@ -826,7 +826,7 @@ pub fn get_all_units() -> Vec<Unit> {
         // Electric Charge units (base: coulombs)
         Unit::new_linear(
             UnitCategory::ElectricCharge,
-            &["coulombs", "c", "coulomb"],
+            &["coulombs", "C", "coulomb"],
             1.0,
         ),
         Unit::new_linear(
